@@ -147,7 +147,9 @@ def anchor_histories(fam, check, rng, tier):
         # post-merge: estimation + estimation, into empty, different k
         s = Script(rng, fam, ty, check, tier)
         k = {"kll": 8, "req": 4, "quant": 4}[fam]
-        s.new(0, k, 0); s.new(1, k if fam != "quant" else 2 * k, 0); s.new(2, k, 0)
+        # KLL: sketch 0 has the larger k, so that after `merge 0 1` min_k (8) differs from k (12);
+        # classic quantiles: sketch 1 has 2k and is down-sampled into sketch 0
+        s.new(0, 12 if fam == "kll" else k, 0); s.new(1, k if fam != "quant" else 2 * k, 0); s.new(2, k, 0)
         s.upd(0, 37); s.upd(1, 53)
         s.merge(2, 0); s.chk(2, "merge-into-empty")
         s.merge(0, 1); s.chk(0, "merge")
